@@ -495,7 +495,11 @@ def run_strace(ctx, canary, moddir):
                     execs += 1
                     if execs > 1:
                         ctx.violation("C09:strace:execve:" + name, "secure CLI child executed a program: %s" % line.strip()[:300], {"script": text})
-                if marker in line:
+                if marker in line and ".ckl\"" in line and ("O_RDONLY" in line or "stat" in line.split("(")[0] or "access" in line.split("(")[0]) and "O_WRONLY" not in line and "O_RDWR" not in line:
+                    # require looking for the module it was asked for, along a module path the program chose (the in-process
+                    # monitor allows the same: reading module sources is the one file access a secure program may cause)
+                    ctx.count("strace_module_lookups_allowed")
+                elif marker in line:
                     ctx.violation("C09:strace:canary-syscall:" + name, "secure CLI child named the canary tree in a syscall: %s" % line.strip()[:300], {"script": text})
         ctx.count("strace_syscalls", nlines)
         # a script that is rejected as a whole (assignment to a system variable is a syntax error) never runs: fine
